@@ -23,6 +23,10 @@ EXTENDS Rat, TLC, Json, FiniteSetsExt
 
 CONSTANTS Kernel,      \* "sinc4" | "rect" | "tri"
           Classes,     \* sequence of records [u |-> label, w |-> Rat, centre |-> BOOLEAN, tier |-> "P"|"I"|"tie"]
+          SumInSpec,   \* TRUE: the weighted sums are computed (and the algebra checked) by TLC;
+                       \* FALSE (large alphabets: the common denominator of the nice weights exceeds 32 bits):
+                       \* TLC enumerates the cases and exports the class table, the sums are formed by the harness
+                       \* in exact fractions from that table
           Export
 
 NC == Len(Classes)
@@ -47,28 +51,29 @@ Result(row(_)) == [c |-> IF HasCentre THEN 1 ELSE 0, s0 |-> S0(row), A |-> Acc(r
 
 Init == pop \in SUBSET (1..NC) /\ done = FALSE /\ res = <<>>
 Evaluate == /\ ~done /\ done' = TRUE
-            /\ res' = <<Result(RowA), Result(RowB), Result(RowC), Result(RowD)>>
+            /\ res' = IF SumInSpec THEN <<Result(RowA), Result(RowB), Result(RowC), Result(RowD)>> ELSE <<>>
             /\ UNCHANGED pop
 Next == Evaluate
 
 Empty == ~HasCentre /\ RIsZero(WSum)
 
-ConstantReproduced == done => (res[4].A = RMul(R(7), res[4].B) /\ (HasCentre => res[4].s0 = 7))
-Linear == done => /\ res[3].A = RAdd(RMul(R(2), res[1].A), RMul(R(3), res[2].A))
+ConstantReproduced == (done /\ SumInSpec) => (res[4].A = RMul(R(7), res[4].B) /\ (HasCentre => res[4].s0 = 7))
+Linear == (done /\ SumInSpec) => /\ res[3].A = RAdd(RMul(R(2), res[1].A), RMul(R(3), res[2].A))
                   /\ res[3].s0 = 2 * res[1].s0 + 3 * res[2].s0
                   /\ res[3].B = res[1].B /\ res[2].B = res[1].B
 \* non-negative weights: the average lies between the smallest and largest contributing sample
-Between == done /\ ~Empty =>
+Between == (done /\ SumInSpec /\ ~Empty) =>
     LET S == { i \in pop : Classes[i].centre \/ (Classes[i].tier = "P" /\ ~RIsZero(Classes[i].w)) }
         lo == Min({ RowB(i) : i \in S })
         hi == Max({ RowB(i) : i \in S })
     IN  /\ RLe(RMul(R(lo), res[2].B), res[2].A) /\ RLe(res[2].A, RMul(R(hi), res[2].B))
         /\ (HasCentre => lo <= res[2].s0 /\ res[2].s0 <= hi)
 NonNegative == \A i \in 1..NC : RSign(Classes[i].w) >= 0
-ZeroIffEmpty == done => (Empty <=> (res[1].c = 0 /\ RIsZero(res[1].B)))
+ZeroIffEmpty == (done /\ SumInSpec) => (Empty <=> (res[1].c = 0 /\ RIsZero(res[1].B)))
 
 ExportCase == (Export /\ done) =>
-    PrintT(ToJson([pop |-> pop, res |-> res, empty |-> Empty,
+    PrintT(ToJson([pop |-> pop, res |-> res, empty |-> (IF SumInSpec THEN Empty ELSE \A i \in Contrib \cup Centre : ~Classes[i].centre /\ RIsZero(Classes[i].w)),
+                   table |-> IF pop = {} THEN Classes ELSE <<>>,
                    ties |-> { i \in pop : Classes[i].tier = "tie" },
                    itier |-> { i \in pop : Classes[i].tier = "I" }]))
 =============================================================================
